@@ -508,9 +508,13 @@ pub fn gen_conn_ep(r: &mut Rng, id: u64, kind: Kind, base: u64, ep: Option<Endpo
             let req = http1_request(r, id);
             let res = http1_response(r, id);
             let c = cuts(r, req.len(), 3);
+            let before = s.frames.len();
             s.c_stream(&req, &c);
+            reorder_tail(r, &mut s.frames, before);
             let c = cuts(r, res.len(), 3);
+            let before = s.frames.len();
             s.s_stream(&res, &c);
+            reorder_tail(r, &mut s.frames, before);
         }
         Kind::Http2 | Kind::Http2Hostile => {
             let hostile = kind == Kind::Http2Hostile;
@@ -520,9 +524,13 @@ pub fn gen_conn_ep(r: &mut Rng, id: u64, kind: Kind, base: u64, ep: Option<Endpo
                 None => simple_h2_ex(r, id, hostile, true),
             };
             let c = cuts(r, req.len(), 3);
+            let before = s.frames.len();
             s.c_stream(&req, &c);
+            reorder_tail(r, &mut s.frames, before);
             let c = cuts(r, res.len(), 2);
+            let before = s.frames.len();
             s.s_stream(&res, &c);
+            reorder_tail(r, &mut s.frames, before);
         }
         Kind::Garbage => {
             for _ in 0..1 + r.usize(4) {
@@ -554,6 +562,21 @@ pub fn gen_conn_ep(r: &mut Rng, id: u64, kind: Kind, base: u64, ep: Option<Endpo
         })
         .collect();
     Conn { kind, ep, frames }
+}
+
+/// One connection in five delivers the segments of a message out of order (the network
+/// reordered them): two neighbouring segments swapped, or the segment with the first byte last.
+fn reorder_tail(r: &mut Rng, frames: &mut [Vec<u8>], from: usize) {
+    let n = frames.len().saturating_sub(from);
+    if n < 2 || !r.chance(1, 5) {
+        return;
+    }
+    if r.chance(1, 2) {
+        let k = from + r.usize(n - 1);
+        frames.swap(k, k + 1);
+    } else {
+        frames[from..].rotate_left(1);
+    }
 }
 
 fn ts_only(v: u32) -> Vec<u8> {
